@@ -50,11 +50,17 @@ def run_san(cmd, env, timeout=60):
 def image_case(src, asan, idx, seed, tier):
     r = e2v.rng(seed, "c06", idx)
     name, opts, size = r.choice(corrupt.IMG_CONFIGS)
+    nx = len(corrupt.XATTR_VARIANTS)
+    if idx < 2 * nx:
+        name, opts, size = corrupt.IMG_CONFIGS[0 if idx < nx else 2]
     base = corrupt.build_image(src, WORK, name, opts, size, 1)
     img = os.path.join(WORK, "m_%d.img" % idx)
     aux = os.path.join(WORK, "aux_%d" % idx)
     k = r.random()
-    if k < 0.6:
+    if idx < 2 * nx:
+        # boundary values of one attribute-block entry, checksums valid
+        desc = corrupt.corrupt(base, img, r, directed=(corrupt.op_xattr_block, corrupt.XATTR_VARIANTS[idx % nx]))
+    elif k < 0.6:
         desc = corrupt.corrupt(base, img, r)
     elif k < 0.8:
         desc = corrupt.corrupt(base, img, r, nops=r.randint(3, 8), operators=[corrupt.op_noise, corrupt.op_noise, corrupt.op_inode_field, corrupt.op_extent, corrupt.op_dirent, corrupt.op_gd_location])
@@ -155,6 +161,57 @@ def journal_case(src, asan, idx, seed, tier):
     return {"kind": "journal", "base": name, "journal": mode, "note": note, "damage": desc, "case_index": idx}, bad, nrun
 
 
+UNDO_DIRECTED = [
+    [("fs_block_size", 1 << 20), ("key0.size", 64 << 20)],
+    [("key0.size", "512*bs+bs")],
+    [("key0.size", 0xFFFFFFFF)],
+    [("block_size", 0)],
+    [("fs_block_size", 0)],
+    [("num_keys", 1 << 40)],
+    [("key_offset", 1 << 40)],
+    [("block_size", 1 << 30), ("fs_block_size", 1 << 30)],
+]
+
+
+def undo_edit(d, r, edits=None):
+    """field-level edits of an undo file with the header and key-block checksums recomputed"""
+    from extfmt import crc32c
+    HDR = {"num_keys": (8, "<Q"), "super_offset": (16, "<Q"), "key_offset": (24, "<Q"), "block_size": (32, "<I"), "fs_block_size": (36, "<I"),
+           "state": (44, "<I"), "f_compat": (48, "<I"), "f_incompat": (52, "<I"), "fs_offset": (64, "<Q")}
+    if d[:8] != b"E2UNDO02" or len(d) < 2048:
+        return ["not an undo file"]
+    bs = struct.unpack_from("<I", d, 32)[0]
+    koff = struct.unpack_from("<Q", d, 24)[0] * bs
+    nkeys = struct.unpack_from("<Q", d, 8)[0]
+    desc = []
+    if edits is None:
+        edits = []
+        for _ in range(r.randint(1, 3)):
+            f = r.choice(list(HDR) + ["key0.size", "key0.size", "key0.fsblk", "keyN.size"])
+            v = r.choice([0, 1, 511, 512, 1 << 16, 1 << 20, 64 << 20, 1 << 30, 0x7FFFFFFF, 0xFFFFFFFF, "512*bs+bs", "512*bs"])
+            edits.append((f, v))
+    for f, v in edits:
+        if v == "512*bs+bs":
+            v = 513 * bs
+        elif v == "512*bs":
+            v = 512 * bs
+        if f in HDR:
+            off, fmt = HDR[f]
+            struct.pack_into(fmt, d, off, v & (0xFFFFFFFF if fmt == "<I" else 0xFFFFFFFFFFFFFFFF))
+        elif koff + bs <= len(d) and nkeys:
+            j = 0 if f.startswith("key0") else r.randrange(min(nkeys, bs // 16 - 1))
+            k = koff + 16 + 16 * j
+            if f.endswith("size"):
+                struct.pack_into("<I", d, k + 12, v & 0xFFFFFFFF)
+            else:
+                struct.pack_into("<Q", d, k, v)
+            struct.pack_into("<I", d, koff + 4, 0)
+            struct.pack_into("<I", d, koff + 4, crc32c(0xFFFFFFFF, bytes(d[koff:koff + bs])))
+        desc.append("undo file %s := %s (checksums recomputed)" % (f, v))
+    struct.pack_into("<I", d, 508, crc32c(0xFFFFFFFF, bytes(d[:508])))
+    return desc
+
+
 def aux_case(src, asan, idx, seed, tier):
     """damaged undo files and qcow2 images"""
     r = e2v.rng(seed, "c06a", idx)
@@ -179,7 +236,10 @@ def aux_case(src, asan, idx, seed, tier):
         cmds = [("e2image -r from qcow2", [T("misc/e2image"), "-r", f, f + ".raw"])]
     if os.path.exists(f):
         d = bytearray(open(f, "rb").read())
-        for _ in range(r.randint(1, 6)):
+        if kind == "undo file" and (idx // 2 < len(UNDO_DIRECTED) or r.random() < 0.5):
+            desc += undo_edit(d, r, UNDO_DIRECTED[idx // 2] if idx // 2 < len(UNDO_DIRECTED) else None)
+        else:
+          for _ in range(r.randint(1, 6)):
             o = r.randrange(min(len(d), 4096)) if r.random() < 0.7 else r.randrange(len(d))
             d[o] = r.getrandbits(8)
             desc.append("%s byte %d := %d" % (kind, o, d[o]))
@@ -260,7 +320,7 @@ def run(res, replay=None):
     for nm, op, sz in corrupt.IMG_CONFIGS:
         corrupt.build_image(src, WORK, nm, op, sz, 1)
     rows, dbad = dirwalk_corr(src, hexe, mexe, seed, 40 if tier == "quick" else 2000)
-    n_img, n_j, n_a = (40, 16, 12) if tier == "quick" else (4000, 1500, 800)
+    n_img, n_j, n_a = (48, 16, 16) if tier == "quick" else (4000, 1500, 800)
     with concurrent.futures.ThreadPoolExecutor(14) as ex:
         o1 = list(ex.map(lambda i: image_case(src, asan, i, seed, tier), range(n_img)))
         o2 = list(ex.map(lambda i: journal_case(src, asan, i, seed, tier), range(n_j)))
